@@ -50,6 +50,9 @@ func (st *PrefixStorage) RawStorage() *Storage {
 }
 
 func (st *PrefixStorage) Prefix() []byte {
+	st.RLock()
+	defer st.RUnlock()
+
 	return st.prefix
 }
 
@@ -66,6 +69,10 @@ func (st *PrefixStorage) Close() error {
 func (st *PrefixStorage) Remove() error {
 	st.Lock()
 	defer st.Unlock()
+
+	if st.prefix == nil { // NOTE nil prefix covers all the prefixes
+		return storage.ErrClosed.WithStack()
+	}
 
 	return RemoveByPrefix(st.Storage, st.prefix)
 }
@@ -93,7 +100,12 @@ func (st *PrefixStorage) Iter(
 	callback func([]byte, []byte) (bool, error),
 	sort bool,
 ) error {
-	nr := leveldbutil.BytesPrefix(st.prefix)
+	prefix := st.Prefix()
+	if prefix == nil { // NOTE nil prefix covers all the prefixes
+		return storage.ErrClosed.WithStack()
+	}
+
+	nr := leveldbutil.BytesPrefix(prefix)
 
 	if r != nil {
 		if r.Start != nil {
@@ -135,7 +147,7 @@ func (st *PrefixStorage) Put(key, b []byte, opt *leveldbOpt.WriteOptions) error 
 		return storage.ErrClosed.WithStack()
 	}
 
-	return st.Storage.Put(st.key(key), b, opt)
+	return st.Storage.Put(k, b, opt)
 }
 
 func (st *PrefixStorage) Delete(key []byte, opt *leveldbOpt.WriteOptions) error {
@@ -144,7 +156,7 @@ func (st *PrefixStorage) Delete(key []byte, opt *leveldbOpt.WriteOptions) error 
 		return storage.ErrClosed.WithStack()
 	}
 
-	return st.Storage.Delete(st.key(key), opt)
+	return st.Storage.Delete(k, opt)
 }
 
 func (st *PrefixStorage) NewBatch() *PrefixStorageBatch {
